@@ -92,6 +92,86 @@ def conc_engine(run, tier, seed):
     run.samples.append({"engine": "conc", "output_tail": text.splitlines()[-12:]})
 
 
+def tty_engine(run, tier, seed):
+    """C11, TTY mirror: (1) the real TTYFrontend's bytes per step vs the model frontend fed with the same
+    callbacks (verbatim); (2) end-to-end on the implementation: a real outer terminal interprets the bytes;
+    outer = inner inside the region, untouched outside, cursor as specified, silent when detached."""
+    import os, re, subprocess
+    import core, lineengine
+    out, err = lineengine.build_engine("tty")
+    if out is None:
+        run.violations.append({"kind": "build", "what": "tty harness does not build against /repo: " + err[-300:], "case": None, "op": None,
+                               "case_text": "", "expected": None, "actual": None, "step": False})
+        return
+    n = 300 if tier == "thorough" else 40
+    for name, sd, extra in (("narrow", seed, []), ("wide", seed + 1, ["-wide"])):
+        cases, real = os.path.join(out, "c_%s.txt" % name), os.path.join(out, "r_%s.txt" % name)
+        p = subprocess.run([os.path.join(out, "hm"), "-n", str(n), "-seed", str(sd), "-mode", "0", "-cases", cases, "-real", real] + extra,
+                           stdout=subprocess.PIPE, stderr=subprocess.STDOUT, timeout=1200)
+        text = p.stdout.decode("utf8", "replace")
+        if p.returncode != 0:
+            run.violations.append({"kind": "crash", "what": "tty harness failed: " + text[-300:], "case": "tty:" + name, "op": None, "case_text": "",
+                                   "expected": None, "actual": None, "step": False})
+            continue
+        # end-to-end predicate on the implementation alone
+        kind = "?"
+        for line in text.splitlines():
+            m = re.match(r"E2E (\w+) ", line)
+            if m:
+                kind = m.group(1)
+                st = re.search(r"steps=(\d+) attached=(\d+)", line)
+                run.stats["cases"] += int(st.group(1))
+                run.stats["ops_compared"] += int(st.group(1))
+            m = re.search(r"inside-region cells equal: ok=(\d+) bad=(\d+) \(bad with a glyph cut by the region edge=(\d+), other=(\d+)\)", line)
+            if m:
+                run.known_hits["tty-cut-glyph-inside"] += int(m.group(3))
+                if int(m.group(4)):
+                    run.violations.append({"kind": "predicate", "what": "TTY mirror (%s, %s): %s steps where outer cells differ from the inner screen inside the region with no wide glyph cut by an edge" % (kind, name, m.group(4)),
+                                           "case": "tty:%s:%s" % (name, kind), "op": None, "case_text": "", "expected": None, "actual": line, "step": False})
+            m = re.search(r"outside-region cells untouched: ok=(\d+) bad=(\d+) \(cut=(\d+), other=(\d+)\)", line)
+            if m:
+                run.known_hits["tty-cut-glyph-outside"] += int(m.group(3))
+                if int(m.group(4)):
+                    run.violations.append({"kind": "predicate", "what": "TTY mirror (%s, %s): %s steps where the frontend changed outer cells outside the attach region" % (kind, name, m.group(4)),
+                                           "case": "tty:%s:%s" % (name, kind), "op": None, "case_text": "", "expected": None, "actual": line, "step": False})
+            m = re.search(r"attach region empty after clamping=(\d+)", line)
+            if m:
+                run.known_hits["tty-empty-attach-region"] += int(m.group(1))
+            m = re.search(r"outer cursor as specified: ok=(\d+) bad=(\d+)", line)
+            if m and int(m.group(2)):
+                run.violations.append({"kind": "predicate", "what": "TTY mirror (%s, %s): outer cursor not placed/hidden as specified in %s steps: %s" % (kind, name, m.group(2), line.strip()),
+                                       "case": "tty:%s:%s" % (name, kind), "op": None, "case_text": "", "expected": None, "actual": line, "step": False})
+            m = re.search(r"detached steps=(\d+) silent=(\d+)", line)
+            if m and m.group(1) != m.group(2):
+                run.violations.append({"kind": "predicate", "what": "TTY frontend (%s, %s) wrote bytes while detached in %d of %s detached steps (only a show-cursor at Detach is allowed)" % (
+                    kind, name, int(m.group(1)) - int(m.group(2)), m.group(1)), "case": "tty:%s:%s" % (name, kind), "op": None, "case_text": "",
+                    "expected": None, "actual": line, "step": False})
+        # model frontend (repaired code, rp=1) fed with the real callbacks: bytes per step, verbatim
+        mp = subprocess.run([os.path.join(out, "drv"), "1", "1"], stdin=open(cases), stdout=subprocess.PIPE, timeout=1800)
+        rl = [l for l in open(real).read().splitlines() if l.startswith("200") or l.startswith("#")]
+        ml = [l for l in mp.stdout.decode().splitlines() if l.startswith("200") or l.startswith("#")]
+        bad = 0
+        cid = ""
+        for a, b in zip(rl, ml):
+            if a.startswith("#"):
+                cid = a
+                continue
+            run.stats["ops_projected"] += 1
+            run.distinct.add(a[:60])
+            if a != b:
+                bad += 1
+                if bad <= 2:
+                    f = lambda l: bytes(int(x) for x in l.split()[1:])
+                    run.violations.append({"kind": "mismatch", "what": "TTYFrontend bytes differ from the model frontend (%s %s): real %r model %r" % (name, cid, f(a)[:120], f(b)[:120]),
+                                           "case": "tty:" + cid, "op": None, "case_text": "", "expected": b, "actual": a, "step": False})
+        if len(rl) != len(ml):
+            run.violations.append({"kind": "mismatch", "what": "tty engine: %d real lines, %d model lines" % (len(rl), len(ml)), "case": None, "op": None,
+                                   "case_text": "", "expected": None, "actual": None, "step": False})
+        run.stats["tty_%s_steps_differing" % name] = bad
+    if not run.samples:
+        run.samples.append({"engine": "tty", "note": "inner terminal with a real TTYFrontend attached to a random region; bytes per step compared with the model frontend"})
+
+
 PROPS = {
     "C01": {"tags": [2], "ppref": ("C01",), "batches": [
         B("hostile", 500, 20000, tags=[]), B("mixed", 300, 8000, tags=[]), B("hostile", 150, 4000, modes="1", tags=[])]},
@@ -111,7 +191,7 @@ PROPS = {
     "C09": {"tags": ALL, "ppref": ("C09",), "batches": [
         B("c09", 600, 15000, step=True, kinds_wanted=[10, 13])]},
     "C10": {"tags": [7, 8], "ppref": ("C10",), "batches": [B("stepall", 400, 10000, step=True), B("mixed", 200, 5000)]},
-    "C11": {"tags": [], "ppref": ("C11",), "batches": [B("mixed", 400, 10000, tags=[]), B("c07", 300, 6000, tags=[])]},
+    "C11": {"tags": [], "ppref": ("C11",), "batches": [B("mixed", 400, 10000, tags=[]), B("c07", 300, 6000, tags=[])], "extra": [tty_engine]},
     "C12": {"tags": [], "ppref": ("C12",), "batches": [], "extra": [keys_engine]},
     "C13": {"tags": [], "ppref": ("C13",), "batches": [], "extra": [mouse_engine]},
     "C14": {"tags": [4], "ppref": ("C14",), "batches": [B("c14", 600, 15000), B("mixed", 200, 5000)]},
